@@ -44,6 +44,7 @@ type half struct {
 	writeErr   error
 
 	writes [][]byte // tap
+	abort  bool     // FailWriteNow: a Write blocked in rendezvous fails too (connection reset)
 
 	rdeadline time.Time
 	wdeadline time.Time
@@ -167,6 +168,9 @@ func (h *half) write(p []byte) (int, error) {
 		// wait until the peer has consumed everything we queued
 		target := h.nwritten
 		for h.nread < target {
+			if h.abort {
+				return int(int64(n) - (target - h.nread)), h.writeErr
+			}
 			if h.rclosed || h.wclosed {
 				return int(int64(n) - (target - h.nread)), io.ErrClosedPipe
 			}
@@ -281,6 +285,7 @@ func (e *End) FailWriteAt(n int64, err error) {
 func (e *End) FailWriteNow(err error) {
 	e.out.mu.Lock()
 	e.out.failWrAt, e.out.writeErr = e.out.nwritten, err
+	e.out.abort = true
 	e.out.cond.Broadcast()
 	e.out.mu.Unlock()
 }
